@@ -50,7 +50,11 @@ def deleteFrom (s : Store) (k : Nat) : Store :=
 
 /-- `save_new_snapshot_pointer`: everything up to the pointer's index is dropped, the pointer takes its place -/
 def savePointer (s : Store) (i t : Nat) : Store :=
-  { s with ents := ⟨i, t, .pointer⟩ :: s.ents.filter (·.index > i) }
+  match s.next with
+  | none =>
+    -- no log file yet: the pointer is written like a first record
+    { s with ents := [⟨i, t, .pointer⟩], next := some (i + 1), lastTerm := t }
+  | some _ => { s with ents := ⟨i, t, .pointer⟩ :: s.ents.filter (·.index > i) }
 
 /-- `begin_ready_to_load`: the pointer of the compaction before the previous one is installed -/
 def compact (s : Store) (i t : Nat) : Store :=
